@@ -50,6 +50,9 @@ class Ctx:
         self.opaque = {}
         self.opaque_args = {}   # opaque var name -> (fn, argument SV)
         self.ranges = {}        # var name -> (lo, hi) known interval (None = unbounded)
+        self.decided = {}
+        self.iv_memo = {}
+        self.numpy_division = True   # x/0 is inf (numpy scalar semantics) rather than ZeroDivisionError
         self.notes = []
         self.model = None
         self.concrete = None    # dict name->float in concrete replay mode
@@ -124,20 +127,25 @@ class Ctx:
                   '| query:', str(extra[0])[:200].replace(chr(10), ' ') if extra else '-', flush=True)
         return r
 
-    def _record(self, entry, term):
+    def _record(self, entry, term, orig=None):
         self.pos += 1
         self.trace.append(entry)
         self.pc.append(term)
+        if orig is not None and isinstance(entry, bool):
+            self.decided[orig.get_id()] = (orig, entry)
 
     def decide(self, term):
         term = z3.simplify(term)
         if z3.is_true(term): return True
         if z3.is_false(term): return False
+        hit = self.decided.get(term.get_id())
+        if hit is not None and hit[0].eq(term):
+            return hit[1]           # already on the path condition (no new trace entry needed: deterministic replay)
         if self.pos < len(self.prefix):
             d = self.prefix[self.pos]
             if not isinstance(d, bool):
                 raise Abort('prefix desync (bool expected)')
-            self._record(d, term if d else z3.Not(term))
+            self._record(d, term if d else z3.Not(term), term)
             return d
         it = interval_truth(term, self.ranges)
         if it is not None:
@@ -160,7 +168,7 @@ class Ctx:
         else:
             self.aborted = 'infeasible path'
             raise Abort('infeasible path')
-        self._record(d, term if d else z3.Not(term))
+        self._record(d, term if d else z3.Not(term), term)
         return d
 
     def concretize(self, sv, cap=64, what='value'):
@@ -299,9 +307,11 @@ def _fr(v):
 
 def interval(t, ranges, _memo=None):
     """sound enclosure (lo, hi) of a term from the declared ranges of its variables; None = unbounded"""
-    if _memo is None: _memo = {}
+    if _memo is None:
+        c = Ctx.cur
+        _memo = c.iv_memo if (c is not None and ranges is c.ranges) else {}
     k = t.get_id()
-    if k in _memo: return _memo[k][1]
+    if k in _memo and _memo[k][0].eq(t): return _memo[k][1]
     tr = ranges.get('#terms')
     if tr:
         hit = tr.get(k)
@@ -319,14 +329,20 @@ def _imul(a, b):
     return (min(ps), max(ps))
 
 
+_INF = float('inf')
 def _imul2(a, b):
-    """product of enclosures where a bound may be missing (None) but signs may still be known"""
-    if None not in a and None not in b: return _imul(a, b)
-    nonneg = lambda i: i[0] is not None and i[0] >= 0
-    if nonneg(a) and nonneg(b):
-        hi = None if a[1] is None or b[1] is None else a[1] * b[1]
-        return (a[0] * b[0], hi)
-    return (None, None)
+    """product of enclosures with possibly missing (None = infinite) bounds"""
+    A = (-_INF if a[0] is None else a[0], _INF if a[1] is None else a[1])
+    B = (-_INF if b[0] is None else b[0], _INF if b[1] is None else b[1])
+    ps = []
+    for x in A:
+        for y in B:
+            if x == 0 or y == 0: ps.append(Fraction(0))
+            elif x in (_INF, -_INF) or y in (_INF, -_INF):
+                ps.append(_INF if (x > 0) == (y > 0) else -_INF)
+            else: ps.append(x * y)
+    lo, hi = min(ps), max(ps)
+    return (None if lo == -_INF else lo, None if hi == _INF else hi)
 
 
 def interval_truth(t, ranges, memo=None):
@@ -354,6 +370,20 @@ def interval_truth(t, ranges, memo=None):
         if a[0] is not None and b[1] is not None and (a[0] > b[1] or (kind == z3.Z3_OP_LT and a[0] >= b[1])): return False
         return None
     return None
+
+
+def _refine(cond, ranges):
+    """ranges refined by a condition `v >= k` / `v <= k` (v a variable) for the then / else branch"""
+    if not z3.is_app(cond) or cond.num_args() != 2: return ranges, ranges
+    kind = cond.decl().kind(); v, k = cond.arg(0), cond.arg(1)
+    if kind not in (z3.Z3_OP_GE, z3.Z3_OP_LE, z3.Z3_OP_GT, z3.Z3_OP_LT): return ranges, ranges
+    if not (z3.is_const(v) and v.decl().kind() == z3.Z3_OP_UNINTERPRETED and (z3.is_rational_value(k) or z3.is_int_value(k))): return ranges, ranges
+    n = v.decl().name(); kv = _fr(k); lo, hi = ranges.get(n, (None, None))
+    up = (lo, kv if hi is None else min(hi, kv)); dn = (kv if lo is None else max(lo, kv), hi)
+    ra = dict(ranges); rb = dict(ranges)
+    if kind in (z3.Z3_OP_GE, z3.Z3_OP_GT): ra[n] = dn; rb[n] = up
+    else: ra[n] = up; rb[n] = dn
+    return ra, rb
 
 
 def _interval(t, ranges, memo):
@@ -398,23 +428,26 @@ def _interval(t, ranges, memo):
     if kind == z3.Z3_OP_DIV:
         d = iv[1]
         if None in d or d[0] <= 0 <= d[1]: return (None, None)
-        return _imul(iv[0], (1 / d[1], 1 / d[0]))
+        return _imul2(iv[0], (1 / d[1], 1 / d[0]))
     if kind == z3.Z3_OP_POWER and z3.is_int_value(ch[1]) and ch[1].as_long() >= 0:
         r = (Fraction(1), Fraction(1))
         for _ in range(ch[1].as_long()): r = _imul(r, iv[0])
         if ch[1].as_long() % 2 == 0 and r[0] is not None and r[0] < 0: r = (Fraction(0), r[1])
         return r
     if kind == z3.Z3_OP_ITE:
-        a = interval(ch[1], ranges, memo); b = interval(ch[2], ranges, memo)
+        ra, rb = _refine(ch[0], ranges)
+        a = interval(ch[1], ra, {} if ra is not ranges else memo); b = interval(ch[2], rb, {} if rb is not ranges else memo)
         lo = None if a[0] is None or b[0] is None else min(a[0], b[0])
         hi = None if a[1] is None or b[1] is None else max(a[1], b[1])
+        a = interval(ch[1], ranges, memo)
         # |x| pattern: If(x >= 0, x, -x)
-        if lo is not None and hi is not None and ch[0].decl().kind() == z3.Z3_OP_GE and ch[0].arg(0).eq(ch[1]):
-            lo = max(lo, Fraction(0)) if (a[0] is not None and a[0] >= 0) or True else lo
-            if a[0] is not None and a[1] is not None:
-                x0, x1 = a
+        if ch[0].decl().kind() == z3.Z3_OP_GE and ch[0].arg(0).eq(ch[1]) and (z3.is_rational_value(ch[0].arg(1)) or z3.is_int_value(ch[0].arg(1))) and _fr(ch[0].arg(1)) == 0:
+            x0, x1 = a
+            if x0 is not None and x1 is not None:
                 lo = Fraction(0) if x0 <= 0 <= x1 else min(abs(x0), abs(x1))
                 hi = max(abs(x0), abs(x1))
+            else:
+                lo = Fraction(0) if (lo is None or lo < 0) else lo
         return (lo, hi)
     if kind == z3.Z3_OP_TO_REAL:
         return iv[0]
@@ -605,14 +638,32 @@ class Linearizer:
         return e
 
 
+_GL = {'lin': None, 'cache': {}}
+def _linform(c):
+    """per-constraint cache of (division-eliminated, som-normalised, monomial-abstracted) forms; the
+    monomial table is process-wide so that equal monomials get the same fresh name in every query"""
+    k = c.get_id()
+    hit = _GL['cache'].get(k)
+    if hit is not None and hit[0].eq(c): return hit[1]
+    if _GL['lin'] is None: _GL['lin'] = Linearizer()
+    L = _GL['lin']
+    if has_div(c):
+        de = DivElim()
+        f = de.form(c)
+        parts = [f] + [d != 0 for d in de.dens.values()]
+    else:
+        parts = [c]
+    out = [L.lin(_som(p)) for p in parts]
+    if len(_GL['cache']) > 100000: _GL['cache'].clear()
+    _GL['cache'][k] = (c, out)
+    return out
+
+
 def check_linearized(cons, timeout_ms=60000):
-    if any(has_div(c) for c in cons):
-        cons = elim_div(cons)
-    L = Linearizer()
     s = z3.Solver()
     s.set('timeout', timeout_ms)
     for c in cons:
-        s.add(L.lin(_som(c)))
+        for f in _linform(c): s.add(f)
     return timed_check(s, timeout_ms)
 
 
@@ -994,7 +1045,12 @@ def _iszero(o):
 
 def _div(a, b):
     if is_sym(b):
-        if (b == 0): raise ZeroDivisionError('symbolic division by zero')
+        if (b == 0):
+            if ctx().numpy_division:
+                # numpy float64 semantics: inf/nan + RuntimeWarning, no exception; the non-finite path is not analysed
+                ctx().aborted = 'division by zero (numpy: inf/nan)'
+                raise Abort(ctx().aborted)
+            raise ZeroDivisionError('symbolic division by zero')
         if not is_sym(a) and _iszero(a): return 0.0
         return lift2(a, b, lambda x, y: _real(x) / _real(y))
     if b == 0: raise ZeroDivisionError('division by zero')
@@ -1286,10 +1342,12 @@ def _masked_store(arr, mask, val):
     cx = ctx()
     for k in _np.ndindex(base.shape):
         c = mask[k]
-        if isinstance(c, SB):
+        if isinstance(c, SB) and getattr(cx, 'resolve_masks', True):
+            # cheapest first: is the overwrite a no-op whenever the mask holds? (the near-zero thresholds under
+            # a dead-zone assumption: mask => value == 0)
+            if cx.check(c.t, term(v[k]) != term(base[k]), timeout_ms=min(cx.timeout_ms, RESOLVE_TIMEOUT_MS)) == z3.unsat:
+                continue
             c = _resolve(c)
-            if isinstance(c, SB) and cx.check(c.t, term(v[k]) != term(base[k]), timeout_ms=min(cx.timeout_ms, RESOLVE_TIMEOUT_MS)) == z3.unsat:
-                c = False
         base[k] = ite(c if isinstance(c, SB) else bool(c), v[k], base[k])
 
 
@@ -1297,10 +1355,17 @@ def _resolve(c):
     """decide a symbolic condition from the path condition if it is already implied"""
     if not isinstance(c, SB): return bool(c)
     cx = ctx()
+    if not getattr(cx, 'resolve_masks', True): return c
+    memo = cx.__dict__.setdefault('resolve_memo', {})
+    k = c.t.get_id()
+    hit = memo.get(k)
+    if hit is not None and hit[0].eq(c.t): return hit[1]
     tm = min(cx.timeout_ms, RESOLVE_TIMEOUT_MS)
-    if cx.check(c.t, timeout_ms=tm) == z3.unsat: return False
-    if cx.check(z3.Not(c.t), timeout_ms=tm) == z3.unsat: return True
-    return c
+    if cx.check(c.t, timeout_ms=tm) == z3.unsat: r = False
+    elif cx.check(z3.Not(c.t), timeout_ms=tm) == z3.unsat: r = True
+    else: r = c
+    if r is not c: memo[k] = (c.t, r)      # implied facts stay implied as the path condition grows
+    return r
 
 
 def _finish_bool(r):
@@ -1353,7 +1418,12 @@ def amax(a, axis=None, **k):
         vals = list(a.flat)
         if not any(is_sym(v) for v in vals): return max(vals)
         if len(vals) == 1: return vals[0]
-        c = ctx(); m = c.fresh('max', 'I' if all(_isint(v) for v in vals) else 'R')
+        c = ctx()
+        key = ('max',) + tuple(term(v).get_id() for v in vals)
+        if key in c.opaque: return SV(c.opaque[key][0])
+        m = c.fresh('max', 'I' if all(_isint(v) for v in vals) else 'R')
+        c.opaque[key] = (m, [term(v) for v in vals])
+        c.last_max = SV(m)
         for v in vals: c.axioms.append(m >= term(v))
         c.axioms.append(z3.Or(*[m == term(v) for v in vals]))
         ivs = [interval(term(v), c.ranges) for v in vals]
@@ -1369,7 +1439,11 @@ def amin(a, axis=None, **k):
         vals = list(a.flat)
         if not any(is_sym(v) for v in vals): return min(vals)
         if len(vals) == 1: return vals[0]
-        c = ctx(); m = c.fresh('min', 'I' if all(_isint(v) for v in vals) else 'R')
+        c = ctx()
+        key = ('min',) + tuple(term(v).get_id() for v in vals)
+        if key in c.opaque: return SV(c.opaque[key][0])
+        m = c.fresh('min', 'I' if all(_isint(v) for v in vals) else 'R')
+        c.opaque[key] = (m, [term(v) for v in vals])
         for v in vals: c.axioms.append(m <= term(v))
         c.axioms.append(z3.Or(*[m == term(v) for v in vals]))
         ivs = [interval(term(v), c.ranges) for v in vals]
@@ -1475,10 +1549,22 @@ def inv_stub(M):
     expanded for n > 3 (stated in the evidence as an assumption)"""
     c = ctx()
     n = M.shape[0]
+    Mv = M.view(_np.ndarray)
+    for Xp, Ap in getattr(c, 'inv_memo', []):
+        if Xp.shape == Mv.shape and all((isinstance(a, SV) and isinstance(b, SV) and a.t.eq(b.t)) or (not is_sym(a) and not is_sym(b) and a == b)
+                                         for a, b in zip(Xp.flat, Mv.flat)):
+            c.notes.append('lemma inverse-of-inverse used')
+            return Ap.copy().view(SA)          # trusted lemma: (A^-1)^-1 = A
+        if Ap.shape == Mv.shape and all((isinstance(a, SV) and isinstance(b, SV) and a.t.eq(b.t)) or (not is_sym(a) and not is_sym(b) and a == b)
+                                         for a, b in zip(Ap.flat, Mv.flat)):
+            return Xp.copy().view(SA)          # the inverse is a function of its argument
     X = _np.empty((n, n), dtype=object)
+    same = lambda a, b: (isinstance(a, SV) and isinstance(b, SV) and a.t.eq(b.t)) or (not is_sym(a) and not is_sym(b) and a == b)
+    symm = all(same(Mv[i, j], Mv[j, i]) for i in range(n) for j in range(i))
+    if symm: c.notes.append('lemma: the inverse of a symmetric matrix is symmetric')
     for i in range(n):
         for j in range(n):
-            X[i, j] = SV(c.fresh('inv'))
+            X[i, j] = X[j, i] if (symm and j < i) else SV(c.fresh('inv'))
     P = _np.dot(M.view(_np.ndarray), X)
     Q = _np.dot(X, M.view(_np.ndarray))
     for i in range(n):
@@ -1486,6 +1572,8 @@ def inv_stub(M):
             c.axioms.append(term(P[i, j]) == (1 if i == j else 0))
             c.axioms.append(term(Q[i, j]) == (1 if i == j else 0))
     c.notes.append(f'inv_stub {n}x{n}')
+    if not hasattr(c, 'inv_memo'): c.inv_memo = []
+    c.inv_memo.append((X.copy(), _np.array(Mv, dtype=object)))
     return X.view(SA)
 
 
@@ -1854,7 +1942,7 @@ def explore(fn, max_paths=2000, timeout_ms=10000, linearize=True, maxcases=8, al
             import traceback
             tb = traceback.extract_tb(e.__traceback__)
             where_ = next((f'{f.filename}:{f.lineno}' for f in reversed(tb) if '/repo/' in f.filename), '')
-            inner = tb[-1].filename if tb else ''
+            inner = _blame(tb)
             if _in_repo(inner):
                 out = None; status = f'exc:{type(e).__name__}:{str(e)[:200]} @{where_}'
                 pr.exc = e
@@ -1896,6 +1984,15 @@ def explore(fn, max_paths=2000, timeout_ms=10000, linearize=True, maxcases=8, al
     return results, stats, len(work)
 
 
+def _blame(tb):
+    """file of the innermost frame that is neither engine nor library code"""
+    for f in reversed(tb):
+        fn = f.filename
+        if '/symx/' in fn or 'site-packages' in fn or fn.startswith('<'): continue
+        return fn
+    return tb[-1].filename if tb else ''
+
+
 def _in_repo(filename):
     return '/repo/' in filename or filename.startswith(os.environ.get('VERIF_REPO', '/repo')) or '<translated>' in filename
 
@@ -1914,7 +2011,7 @@ def run_concrete(fn, values, allowed_exc=()):
     except Exception as e:
         import traceback
         tb = traceback.extract_tb(e.__traceback__)
-        kind = 'exc' if (tb and _in_repo(tb[-1].filename)) else 'harness-exc'
+        kind = 'exc' if _in_repo(_blame(tb)) else 'harness-exc'
         res = []; status = f'{kind}:{type(e).__name__}:{str(e)[:200]}'
     finally:
         Ctx.cur = None
